@@ -288,65 +288,93 @@ def check_wnaf(res, facts):
                         ok = True
             (rule.ok if ok else rule.bad)(key, "returns None when 1 << (w-1) exceeds the table length", fn.loc)
             # digit -> table entry: table[i] holds (2i+1)*P, so an odd digit n > 0 adds table[n / 2] and n < 0 subtracts
-            # table[(-n) / 2]; digits are consumed most significant first over the full recoding of the caller's scalar
+            # table[(-n) / 2]; digits are those of find_wnaf(scalar, window), most significant first (leading zeros may be
+            # skipped).  The add / subtract may sit in the loop or in a helper that receives the digit.
             from rules.c07 import E, show
             key2 = "ark_ec|WnafContext::mul_with_table|digit use"
-            digit = None
             probs = []
+            # 1. source of the digits
+            base_src = ("call", "rev", (("call", "iter", (("call", "find_wnaf", (("call", "into_bigint", (("arg", 3, ()),)), ("arg", 1, ("window_size",)))),)),))
             nx = [t for _, t in fn.calls() if t["f"].get("name") == "next"]
-            if len(nx) == 1:
-                src = E(fn, nx[0]["args"][0])
-                digit = ("call", "next", (src,), ("0",))
-                want_src = ("call", "rev", (("call", "iter", (("call", "find_wnaf", (("call", "into_bigint", (("arg", 3, ()),)), ("arg", 1, ("window_size",)))),)),))
-                if src != want_src:
-                    probs.append("digits come from %s, expected the full recoding find_wnaf(scalar, window_size), most significant first" % show(src)[:100])
-            else:
+            if len(nx) != 1:
                 probs.append("digit iteration not found")
-            adds = [(bb, t) for bb, t in fn.calls() if t["f"].get("name") == "add_assign"]
-            subs = [(bb, t) for bb, t in fn.calls() if t["f"].get("name") == "sub_assign"]
-            if digit is not None and len(adds) == 1 and len(subs) == 1:
-                ea, es = E(fn, adds[0][1]["args"][1]), E(fn, subs[0][1]["args"][1])
-                pos_idx = (("call", "div", (digit, 2)), ("bin", "Div", digit, 2))
-                neg_idx = (("bin", "Div", ("call", "neg", (digit,)), 2), ("call", "div", (("call", "neg", (digit,)), 2)), ("bin", "Div", ("un", "Neg", digit), 2))
-                def idx_of(e):
-                    return e[2][0][1] if (isinstance(e, tuple) and e[0] == "arg" and e[1] == 2 and len(e[2]) == 1 and e[2][0][0] == "idx") else None
-                if idx_of(ea) not in pos_idx:
-                    probs.append("a positive digit n adds %s, expected table[n / 2]" % show(ea)[:80])
-                if idx_of(es) not in neg_idx:
-                    probs.append("a negative digit n subtracts %s, expected table[(-n) / 2]" % show(es)[:80])
-                # polarity: the add sits on the `n > 0` arm
-                gts = []
-                for bi, b in enumerate(fn.bbs):
-                    if b["t"]["k"] == "switch":
-                        c_ = E(fn, b["t"]["o"])
-                        if isinstance(c_, tuple) and c_[0] == "bin" and c_[1] in ("Gt", "Ge", "Lt", "Le") and c_[2] == digit and c_[3] == 0:
-                            gts.append((bi, b["t"], c_[1]))
-                if len(gts) != 1:
-                    probs.append("no single sign test of the digit selecting between add and subtract")
-                else:
-                    t_ = gts[0][1]
-                    false_t, true_t = t_["tgts"][0], t_["else"]
-                    if gts[0][2] in ("Lt", "Le"):
-                        false_t, true_t = true_t, false_t      # `n < 0`: the true arm is the negative one
-                    def reach(a_, b_):
-                        seen, st_ = {a_}, [a_]
-                        succ = fn.succ()
-                        while st_:
-                            x = st_.pop()
-                            if x == b_:
-                                return True
-                            for y in succ[x]:
-                                if y not in seen and y != gts[0][0]:
-                                    seen.add(y)
-                                    st_.append(y)
-                        return False
-                    if not (reach(true_t, adds[0][0]) and reach(false_t, subs[0][0])) or reach(true_t, subs[0][0]) and not reach(true_t, adds[0][0]):
-                        probs.append("add / subtract are attached to the wrong sign of the digit")
-                dbl = [bb for bb, t in fn.calls() if t["f"].get("name") == "double_in_place"]
-                if len(dbl) != 1 or not fn.dominates(dbl[0], adds[0][0]) and not any(True for _ in ()):
-                    pass
-            elif digit is not None:
-                probs.append("expected one add and one subtract of a table entry")
+            else:
+                src = E(fn, nx[0]["args"][0])
+                cur = src
+                while isinstance(cur, tuple) and cur[0] == "call" and cur[1] in ("enumerate", "skip_while", "copied", "cloned", "peekable", "by_ref") and cur != base_src:
+                    if cur[1] == "skip_while":
+                        zc = [c for c in facts.closures_of(fn) if any(st_.get("r", {}).get("k") == "bin" and st_["r"]["op"] in ("Eq", "Ne") and any("k" in o and o["k"].get("v") == 0 for o in (st_["r"]["a"], st_["r"]["b"])) for _, _, st_ in c.stmts()) and not list(c.calls())]
+                        if not zc:
+                            probs.append("skip_while over the digits with a predicate that is not a plain zero test")
+                    cur = cur[2][0]
+                if cur != base_src:
+                    probs.append("digits come from %s, expected the full recoding find_wnaf(scalar, window_size), most significant first" % show(src)[:100])
+            # 2. the add / subtract sites (in the function or in a helper of the same crate)
+            hosts = [fn] + [c for _, _, c in DF.local_callees(facts, fn)]
+            sites = []
+            for h in hosts:
+                for bb, t in h.calls():
+                    if t["f"].get("name") in ("add_assign", "sub_assign") and len(t["args"]) == 2:
+                        e = E(h, t["args"][1])
+                        idx = e[2][0][1] if (isinstance(e, tuple) and e[0] == "arg" and len(e[2]) == 1 and isinstance(e[2][0], tuple) and e[2][0][0] == "idx") else None
+                        if idx is not None:
+                            sites.append((h, bb, t["f"]["name"], idx))
+
+            def digit_of(idx, negated):
+                # idx = D / 2  resp. (-D) / 2
+                if isinstance(idx, tuple) and ((idx[0] == "bin" and idx[1] == "Div" and idx[3] == 2) or (idx[0] == "call" and idx[1] == "div" and len(idx[2]) == 2 and idx[2][1] == 2)):
+                    num = idx[2] if idx[0] == "bin" else idx[2][0]
+                    if not negated:
+                        return num
+                    if isinstance(num, tuple) and ((num[0] == "call" and num[1] == "neg" and len(num[2]) == 1) or (num[0] == "un" and num[1] == "Neg")):
+                        return num[2][0] if num[0] == "call" else num[2]
+                return None
+
+            def signs_at(h, bb, D):
+                cd = DF.control_deps(h)
+                out, seen, st_ = set(), set(), [bb]
+                while st_:
+                    x = st_.pop()
+                    for (sw, succ_) in cd.get(x, ()):
+                        t_ = h.bbs[sw]["t"]
+                        c_ = E(h, t_["o"])
+                        if isinstance(c_, tuple) and c_[0] == "bin" and c_[2] == D and c_[3] == 0 and t_["vals"] == [0]:
+                            truth = succ_ == t_["else"]
+                            op = c_[1]
+                            if op == "Gt":
+                                out.add("pos" if truth else "nonpos")
+                            elif op == "Lt":
+                                out.add("neg" if truth else "nonneg")
+                            elif op == "Ge":
+                                out.add("nonneg" if truth else "neg")
+                            elif op == "Le":
+                                out.add("nonpos" if truth else "pos")
+                            elif op == "Ne":
+                                out.add("nonzero" if truth else "zero")
+                            elif op == "Eq":
+                                out.add("zero" if truth else "nonzero")
+                        if sw not in seen:
+                            seen.add(sw)
+                            st_.append(sw)
+                return out
+            adds = [x for x in sites if x[2] == "add_assign"]
+            subs = [x for x in sites if x[2] == "sub_assign"]
+            if len(adds) != 1 or len(subs) != 1:
+                probs.append("expected one add and one subtract of a table entry (found %d / %d)" % (len(adds), len(subs)))
+            else:
+                Dp, Dn = digit_of(adds[0][3], False), digit_of(subs[0][3], True)
+                if Dp is None:
+                    probs.append("a positive digit n adds table[%s], expected table[n / 2]" % show(adds[0][3])[:60])
+                if Dn is None:
+                    probs.append("a negative digit n subtracts table[%s], expected table[(-n) / 2]" % show(subs[0][3])[:60])
+                if Dp is not None and Dn is not None:
+                    if Dp != Dn:
+                        probs.append("add and subtract look at different values (%s / %s)" % (show(Dp)[:40], show(Dn)[:40]))
+                    sp, sn = signs_at(adds[0][0], adds[0][1], Dp), signs_at(subs[0][0], subs[0][1], Dn)
+                    if not ("pos" in sp or ({"nonneg", "nonzero"} <= sp)):
+                        probs.append("the add of table[n/2] is not confined to n > 0 (guards: %s)" % sorted(sp))
+                    if not ("neg" in sn or ({"nonpos", "nonzero"} <= sn)):
+                        probs.append("the subtract of table[(-n)/2] is not confined to n < 0 (guards: %s)" % sorted(sn))
             (rule.bad if probs else rule.ok)(key2, "; ".join(probs) if probs else "n > 0: += table[n/2]; n < 0: -= table[(-n)/2]; digits of find_wnaf(scalar, w) from the top", fn.loc)
         elif fn.name == "table":
             names = [t["f"].get("name") for _, t in fn.calls()]
